@@ -93,7 +93,7 @@ def value_kind_seqs(S, G, e, type_name: str, key: str, alt, special: dict) -> li
     DQS = ("K", "DOUBLE_QUOTED_STRING")
     INT = ("K", "SIGNED_INT")
     FLT = ("K", "SIGNED_FLOAT")
-    BIND = [("K", "LSQB"), ("K", "UNQUOTED_STRING"), ("K", "RSQB")]
+    BIND = [("K", "LSQB"), ("W", "attrname"), ("K", "RSQB")]  # the name: a plain identifier, lexed in context
     c = alt.cls
     if c == "ENUM":
         out = [(f"ENUM:{w}", [("W", w.upper())]) for w in alt.words]
@@ -454,6 +454,10 @@ def run(ctx: Ctx) -> None:
                 ctx.check(not bad, "V9", f"{t}.{k} | alternative {i_alt} {alt.tag()}", loc, f"{len(vals)} representative value(s) valid", f"{k.upper()} {bad[0][0] if bad else ''!r} satisfies the listed alternative {alt.tag()} (via {'/'.join(map(str, alt.via)) or 'the node itself'}) but is rejected for the keyword: {bad[0][1] if bad else ''}")
     ctx.units["alternatives_validated"] = n9
 
+    # ---- V10 one reading of the schemas ------------------------------------------------------------
+    ctx.rule("V10", "the schema files are read by one JSON-Schema draft everywhere: Validator.validate, evaluated with recording stand-ins for the jsonschema validator classes, builds a Draft4Validator for every root type with and without a version (the drafts differ on what the files contain: a numeric exclusiveMinimum is ignored by draft 4 and a bound from draft 6 on), so a block gets the same verdict alone, nested, versioned or not", 4)
+    _one_draft(ctx, e)
+
     # ---- V8 printer dispatch / COMPLEX_TYPES ----------------------------------------------------
     ctx.rule("V8", "every keyword-introduced block rule of the grammar is written by the printer in that rule's shape (evaluated), is not counted for the alignment column, and COMPLEX_TYPES equals the END-terminated constructs", 10)
     fmt = repo.func(models.fmt_qual(repo))
@@ -481,3 +485,57 @@ def run(ctx: Ctx) -> None:
     ended = {k for k, v in special.items() if v["end"]}
     want_complex = set(gtypes) | ended
     ctx.check(set(COMPLEX_TYPES) == want_complex, "V8", "tokens.COMPLEX_TYPES", "mappyfile/tokens.py", "equals END-terminated constructs of the grammar", f"COMPLEX_TYPES differs from the grammar's END-terminated constructs: missing {sorted(want_complex - set(COMPLEX_TYPES))}, extra {sorted(set(COMPLEX_TYPES) - want_complex)}")
+
+
+def _one_draft(ctx: Ctx, e) -> None:
+    from ..absval import SObj, HDict
+    from .. import pai
+
+    repo = ctx.repo
+    lv = repo.loc("validator", repo.func("validator.Validator.validate"))
+    DRAFTS = ("Draft3Validator", "Draft4Validator", "Draft6Validator", "Draft7Validator", "Draft201909Validator", "Draft202012Validator")
+    used: dict = {}
+
+    def mk_class(name):
+        def ctor(fr, so, a, k):
+            return SObj("Validator", {"draft": name, "schema": a[0] if a else k.get("schema")})
+
+        return ctor
+
+    def validator_for(fr, so, a, k):
+        # jsonschema.validators.validator_for: the class named by the schema's own $schema, else the default
+        schema = a[0]
+        default = a[1] if len(a) > 1 else k.get("default", pai.FuncRef(None, builtin="jsonschema.Draft202012Validator"))
+        uri = schema.get("$schema") if isinstance(schema, dict) else None
+        if isinstance(uri, str):
+            for tag, cls in (("draft-03", "Draft3Validator"), ("draft-04", "Draft4Validator"), ("draft-06", "Draft6Validator"), ("draft-07", "Draft7Validator"), ("2019-09", "Draft201909Validator"), ("2020-12", "Draft202012Validator")):
+                if tag in uri:
+                    return pai.FuncRef(None, builtin="jsonschema." + cls)
+        return default
+
+    for root in ("map", "label", "layer"):
+        for ver in (None, 8.0):
+            got: list = []
+
+            def errors(I_, so, a, k, got=got):
+                v = a[1] if len(a) > 1 else k.get("validator")
+                got.append(v.attrs.get("draft") if isinstance(v, SObj) else repr(v))
+                return []
+
+            def schema_doc(I_, so, a, k, root=root):
+                d = HDict()
+                if root == "map":
+                    d["$schema"] = "http://json-schema.org/draft-04/schema#"  # only map.json declares one
+                d["properties"] = HDict()
+                return d
+
+            stubs = {"validator.Validator._get_errors": errors, "validator.Validator.get_versioned_schema": schema_doc, "validator.Validator.get_json_from_file": schema_doc, "validator.Validator.get_expanded_schema": schema_doc, "ext:referencing.Registry": lambda fr, so, a, k: SObj("Registry", {}), "ext:Registry": lambda fr, so, a, k: SObj("Registry", {}), "ext:jsonschema.validators.validator_for": validator_for, "ext:validator_for": validator_for}
+            for dn in DRAFTS:
+                stubs["ext:jsonschema." + dn] = mk_class(dn)
+                stubs["ext:jsonschema.validators." + dn] = mk_class(dn)
+            Iv = e.interp(stubs=stubs, allow_fork=False)
+            outs = Iv.explore("validator.Validator.validate", lambda root=root, ver=ver: (models.new_validator(Iv), [HDict({"__type__": root})], {"version": ver} if ver is not None else {}))
+            if len(outs) != 1 or outs[0].kind != "return" or len(got) != 1:
+                raise AnalysisError(f"validate({root}, version={ver}) not evaluable with recording validator classes: {[(o.kind, o.exc) for o in outs]} / {got}")
+            used[(root, ver)] = got[0]
+            ctx.check(got[0] == "Draft4Validator", "V10", f"root {root}, version {ver}", lv, got[0], f"validate() of a {root.upper()} root with version={ver} reads the schema with {got[0]}, the other requests with Draft4Validator: the schema files mean different things under the two drafts (numeric exclusiveMinimum, ...), so the same block is valid in one setting and invalid in the other")
